@@ -454,6 +454,11 @@ def compareValues (today : Int) (cache : RxCache) (fv : Variant) (op : Op) (v : 
     | .NotLike => rx (ofS "like:" ++ val) (likeToPattern val) true (.error (.exit2 "Incorrect LIKE expression"))
     | .Eeq => .ok (.val (val == subj), cache)
     | .Ene => .ok (.val (val != subj), cache)
+    -- text is ordered lexicographically (code points = UTF-8 bytes); D73 fix
+    | .Gt => .ok (.val (strLt val subj), cache)
+    | .Gte => .ok (.val (strLe val subj), cache)
+    | .Lt => .ok (.val (strLt subj val), cache)
+    | .Lte => .ok (.val (strLe subj val), cache)
     | _ => .ok (.val false, cache)
   | .int =>
     let lit := v.toFloat
@@ -505,6 +510,19 @@ def compareValues (today : Int) (cache : RxCache) (fv : Variant) (op : Op) (v : 
       .ok (.val r, cache)
     | .ok _, none => .error (.unsupported "datetime variant without a value")
 
+/-- LIKE / regex operators -/
+def patternOp : Op → Bool
+  | .Like | .NotLike | .Rx | .NotRx => true
+  | _ => false
+
+/-- one atom of `conforms`: pattern operators match the *text* of the left value whatever its type
+    (D74 fix); every other operator compares under the left value's type -/
+def compareAtom (today : Int) (cache : RxCache) (fv : Variant) (op : Op) (v : Variant) : EM (CmpRes × RxCache) :=
+  if patternOp op && fv.ty != .string then
+    -- (the text of an inexact float is not certainly what the implementation prints)
+    if !fv.exact then .ok (.uncertain, cache) else compareValues today cache { fv with ty := .string } op v
+  else compareValues today cache fv op v
+
 def CmpRes.and : CmpRes → CmpRes → CmpRes
   | .val false, _ => .val false
   | .val true, r => r
@@ -536,7 +554,7 @@ def conforms (cx : EvalCtx) (e : Entry) (cache : RxCache) : Expr → EM (CmpRes 
     | .ok (fv, _) =>
       match columnValue cx (some e) [] r with
       | .error er => .error er
-      | .ok (v, _) => compareValues cx.cfg.today cache fv op v
+      | .ok (v, _) => compareAtom cx.cfg.today cache fv op v
   | _ => .ok (.val false, cache)
 
 end Fsel
